@@ -1,5 +1,6 @@
 /- Line-protocol driver: one request line in, one response line out (DESIGN.md Appendix B). -/
 import Driver.Tbl
+import Driver.Parse
 open Driver
 
 def dispatch (line : String) : String :=
@@ -7,6 +8,7 @@ def dispatch (line : String) : String :=
   match toks with
   | [] => ""
   | "TBL" :: rest => tbl rest
+  | "PARSE" :: rest => parseVerb rest
   | _ => "BADVERB"
 
 partial def loop (h : IO.FS.Stream) (out : IO.FS.Stream) : IO Unit := do
